@@ -91,6 +91,26 @@ def gen(rng, tier):
             for f in (fa, fb):
                 for v in ("V", "-"):
                     lines.append(P(["t%d" % ht, "d" + good.hex()] + tl, v, f))
+    # pinned lengths congruent to the real one modulo 2^31 / 2^32 / 2^33 (a narrowing of the option value accepts them), and
+    # the pins set BEFORE zck_init_adv_read (a fresh context is in read mode; an initialisation that resets the defaults
+    # there would wipe them)
+    for ht, fa, dga, ta in bases:
+        good = hexstr(dga)
+        for sz in (ta + (1 << 32), ta + (1 << 33), ta + 3 * (1 << 32), ta + (1 << 40), ta + (1 << 62), ta + (1 << 31), (1 << 32), (1 << 32) - 1):
+            for v in ("V", "-"):
+                lines.append(P(["t%d" % ht, "d" + good.hex(), "s%d" % sz], v, fa))
+                lines.append(P(["s%d" % sz], v, fa))
+        # type values that an int cannot hold (must be refused, not cut down to a type that exists)
+        for tv in (ht + (1 << 32), ht + (1 << 33), (1 << 31), (1 << 31) - 1, ht + (1 << 62), 4):
+            lines.append(P(["t%d" % tv, "d" + good.hex()], "-", fa))
+            lines.append(P(["t%d" % tv], "V", fa))
+        hb = zckfmt.Hdr(ht=(ht + 1) % 4, cht=1, chunks=hdrgen.mk_chunks(rng, 2, 1, False))
+        fb = hb.build() + b"B3"
+        for seq, f in ((["t%d" % ht, "d" + good.hex(), "s%d" % ta, "I"], fa), (["t%d" % ht, "d" + good.hex(), "s%d" % (ta + 1), "I"], fa),
+                       (["t%d" % ht, "I", "d" + good.hex()], fa), (["t%d" % ht, "d" + good.hex(), "I"], fb), (["t%d" % ht, "I"], fb),
+                       (["s%d" % (ta + 1), "I"], fa), (["t%d" % ((ht + 1) % 4), "I"], fa)):
+            for v in ("V", "-"):
+                lines.append(P(seq, v, f))
     # the file changes under a context whose pins were already used once (validate_lead on the pinned file, or a refused
     # length followed by clear-error and the right length): the pins must still hold for the next read
     for ht, fa, dga, ta in bases:
@@ -191,8 +211,20 @@ def run(res, tier, only_case=None):
                     cur_t = int(o[1:])
                 if o[0] == "d" and r == "1":
                     last = (cur_t, py_unhex(vlib.unhex(o[1:])))
+            last_s = None
+            for o, r in zip(oplist, fields["set"]):
+                if o[0] == "s" and r == "1":
+                    last_s = int(o[1:])
+            if last is None and (cur_t is not None or last_s is not None) and not any(o[0] in "de" for o in oplist):
+                # only a type and/or a length pinned: each must equal the file's
+                m2 = (cur_t is None or cur_t == lead["ht"]) and (last_s is None or last_s == lead["lead"] + lead["hlen"])
+                if not m2 and (" open=OK" in i or " val=1" in i):
+                    res.violation("oracle", key, "pinned type %s / length %s accepted as options, file has type %d / length %d, and it still gets through: %s"
+                                  % (cur_t, last_s, lead["ht"], lead["lead"] + lead["hlen"], i[:80]), case)
+                    continue
             if last is not None and last[1] is not None:
-                match = (last[0] == lead["ht"] and last[1] == f[lead["dloc"]:lead["lead"]])
+                match = (last[0] == lead["ht"] and last[1] == f[lead["dloc"]:lead["lead"]] and
+                         (last_s is None or any(o[0] == "e" for o in oplist) or last_s == lead["lead"] + lead["hlen"]))
                 if not match and (" open=OK" in i or " val=1" in i):
                     res.violation("oracle", key, "digest %s.. (type %s) was accepted as pin, later calls [%s] returned %s, and a file with header digest %s.. "
                                   "(type %d) still gets through: %s" % (last[1].hex()[:16], last[0], ",".join(o[:12] for o in oplist), fields["set"],
